@@ -65,6 +65,7 @@ type IngScenario struct {
 	RecvErrAtMs int    `json:"recv_err_at,omitempty"`  // the errno starts this many ms into the load (0 = before it)
 	Poison      int    `json:"poison,omitempty"`       // client index+1 whose destination refuses sends
 	Perturb     uint64 `json:"perturb,omitempty"`      // seed of extra yields at socket operations
+	PackGap     bool   `json:"pack_gap,omitempty"`     // with Perturb: yields also right after the pooled packer released its state (C10)
 	ClientRate  int    `json:"client_rate,omitempty"`
 	MaxConcurrent int  `json:"max_concurrent,omitempty"` // resolver fan-out budget (per-zone quota = max(n/16, 16))
 	// stream clients (the owned TCP listener is started when there is at least one)
@@ -944,6 +945,7 @@ func genIng(r *kit.RNG, flavour string) *IngScenario {
 	}
 	if r.Chance(0.5) {
 		sc.Perturb = r.Uint64() | 1
+		sc.PackGap = flavour == "c10" && r.Chance(0.7)
 	}
 	// stream clients
 	if r.Chance(0.55) {
@@ -1029,7 +1031,8 @@ func shrinkIng(sc any, fails func(any) bool) any {
 	}
 	cur.Warm = kit.DDMin(cur.Warm, &budget, func(xs []int) bool { c := *cur; c.Warm = xs; return fails(&c) })
 	for _, f := range []func(c *IngScenario){
-		func(c *IngScenario) { c.Perturb = 0 },
+		func(c *IngScenario) { c.Perturb = 0; c.PackGap = false },
+		func(c *IngScenario) { c.PackGap = false },
 		func(c *IngScenario) { c.PartialSend = 0 },
 		func(c *IngScenario) { c.SendmmsgErr = "" },
 		func(c *IngScenario) { c.RecvmmsgErr = ""; c.RecvErrAtMs = 0 },
